@@ -392,8 +392,11 @@ def initialize_pit(net):
     if get_net_option(net, "transient") and get_net_option(net,"simulation_time_step") != 0 and net.converged:
         create_old_pit(net, [TINIT], [TOUTINIT])
 
+    # all node entries first: the start values of the branches are derived from the node entries,
+    # including the values fixed by components that come later in the component list
     for comp in net['component_list']:
         comp.create_pit_node_entries(net, pit["node"])
+    for comp in net['component_list']:
         comp.create_pit_branch_entries(net, pit["branch"])
         comp.create_component_array(net, pit["components"])
 
